@@ -414,6 +414,63 @@ def fam_cache(sess):
         sess.discharged('cache: %d ordered pairs of expressions: the value of the second does not depend on the first' % len(pairs), family=fam, queries=npaths[0])
 
 
+def fam_cache_literals(sess):
+    """the same question as `cache` for TEXT-valued columns whose key texts could coincide: a quoted literal that spells a column,
+    a function of a literal vs. the same function of the column, one literal containing the argument separator vs. two literals"""
+    prog = sess.prog
+    fam = 'cache_literals'
+    ex = sess.executor([E.GFV_OVERRIDE], unwind=12)
+    gcev = prog.find('Searcher', 'get_column_expr_value')
+    fe = lambda c: E.expr_field(prog, c)
+    val = lambda t: E.expr_value(prog, t)
+    fn = lambda n: EnumV(prog.src.variant_index('Function', n), {}, 'Function')
+    call = lambda f, left, *args: E.mk_expr(prog, function=some(fn(f)), left=some(BoxV(left)), args=some(Seq(list(args))))
+    exprs = {"name": lambda: fe('Name'), "'Name'": lambda: val('Name'), "upper(name)": lambda: call('Upper', fe('Name')), "upper('Name')": lambda: call('Upper', val('Name')),
+             "concat('a, b')": lambda: call('Concat', val('a, b')), "concat('a', 'b')": lambda: call('Concat', val('a'), val('b')),
+             "size": lambda: fe('Size'), "length('Size')": lambda: call('Length', val('Size')), "'Size'": lambda: val('Size')}
+    pairs = [("name", "'Name'"), ("name", "upper('Name')"), ("upper(name)", "upper('Name')"), ("upper('Name')", "upper(name)"), ("concat('a, b')", "concat('a', 'b')"),
+             ("concat('a', 'b')", "concat('a, b')"), ("size", "length('Size')"), ("size", "'Size'")]
+    sess.bounds[fam] = {'pairs': ['%s ; %s' % p for p in pairs], 'name': 'abcd', 'size': 12}
+    roles = {}
+    npaths = [0]
+    for first, second in pairs:
+        def run(ctx, first=first, second=second):
+            ctx.ghost['fields'] = {'Size': E.mk_variant(prog, 'Int', int_value=some(BitVecVal(12, 64)), string_value=Str('12')), 'Name': E.mk_variant(prog, 'String', string_value=Str('abcd'))}
+            sref = Ref(Cell(E.mk_searcher(prog)))
+
+            def ev(e, fm):
+                return ctx.call_fn(gcev, [sref, some(Ref(Cell('DIRENTRY'))), Ref(Cell(none())), Ref(Cell(fm)), none(), Ref(Cell(e))])
+            fm = Map('HashMap')
+            ev(exprs[first](), fm)
+            return ev(exprs[second](), fm), ev(exprs[second](), Map('HashMap'))
+
+        def on_path(ctx, out, first=first, second=second):
+            npaths[0] += 1
+            name = 'cache_literals: %s after %s' % (second, first)
+            if out[0] != 'ret':
+                sess.inconclusive(name, str(out)[:300], fam); roles['bad'] = True; return
+            Fv = E.struct_fields(prog, 'Variant')
+            a, b = [v.f[Fv.index('string_value')] for v in out[1]]
+            if isinstance(a, Str) and isinstance(b, Str) and a.s is not None and a.s == b.s:
+                return
+            role = 'cache/collision/' + ('literal-spells-column' if 'Name' in first + second or 'Size' in first + second else 'literal-with-separator')
+            if roles.get(role):
+                return
+            roles[role] = True
+
+            def rep(first=first, second=second):
+                exe = common.native_binary()
+                tree = {'abcd': {'size': 12}}
+                r1 = common.run_cli(exe, ['%s, %s from .' % (first, second)], tree)
+                both = r1['stdout'].rstrip('\n').split('\t')
+                alone = [common.run_cli(exe, ['%s from .' % e], tree)['stdout'].rstrip('\n') for e in (first, second)]
+                return both != alone, 'select %s, %s -> %r ; each of them alone -> %r' % (first, second, both, alone)
+            sess.violated(name, role, 'the value of `%s` is %r after `%s` and %r alone' % (second, a, first, b), {'first': first, 'second': second}, rep, fam)
+        ex.explore(run, on_path)
+    if not roles:
+        sess.discharged('cache_literals: %d ordered pairs: a literal never reads a column\'s cached value, literals with separators stay distinct' % len(pairs), family=fam, queries=npaths[0])
+
+
 def fam_minus(sess):
     prog = sess.prog
     fam = 'minus'
@@ -467,7 +524,7 @@ def main(sess):
         'f64 % is fmod; operands of calc are non-NaN',
     ]
     only = getattr(sess, 'only', None)
-    for name, f in (('tree', fam_tree), ('calc', fam_calc), ('cache', fam_cache), ('minus', fam_minus)):
+    for name, f in (('tree', fam_tree), ('calc', fam_calc), ('cache', fam_cache), ('cache_literals', fam_cache_literals), ('minus', fam_minus)):
         if not only or name in only:
             f(sess)
 
